@@ -489,31 +489,60 @@ func checkSemanticFilters(p *Prog, l *Ledger, pi *parserInfo) {
 	if len(res) >= len(reg) && len(reg) > 0 {
 		l.Discharge(rule, "reserved-table", "", fmt.Sprintf("%d reserved names ⊇ %d registered built-ins", len(res), len(reg)), true)
 	}
-	// the reserved lookups use the token just consumed
+	// every name token that becomes the name of a declared variable or function has been looked up in the reserved
+	// table, and found absent, on the path that stores it (a check made for the first declarator only, or for a
+	// different token, leaves a way to declare a built-in name)
 	for _, f := range []string{"varDeclaration", "function"} {
 		m := pi.Models[f]
 		if m == nil {
 			continue
 		}
-		ok := false
-		for _, e := range m.G.Events("") {
-			if e.Op == "test" && strings.Contains(e.Args[0], "reservedIdentifiers[tok@") && strings.Contains(e.Args[0], ".Lexeme]") {
-				ok = true
+		stored := 0
+		mon := Monitor{Init: "|", Step: func(st string, ev *Event) string {
+			checked := strings.Split(st, "|")
+			has := func(x string) bool {
+				for _, c := range checked {
+					if c == x {
+						return true
+					}
+				}
+				return false
 			}
-		}
-		instrs := false
-		instrsOf(m.Fn, func(in ssa.Instruction) {
-			if lk, isLk := in.(*ssa.Lookup); isLk && strings.Contains(describe(lk.X), "reservedIdentifiers") {
-				instrs = true
-				if !strings.HasSuffix(describe(lk.Index), ".Lexeme") {
-					instrs = false
+			drop := func(x string) string {
+				var out []string
+				for _, c := range checked {
+					if c != x && c != "" {
+						out = append(out, c)
+					}
+				}
+				return "|" + strings.Join(out, "|")
+			}
+			switch {
+			case ev.Op == "consume" && ev.Out == "ok":
+				return drop(ev.KV["res"]) // a token consumed anew at this site has not been checked yet
+			case ev.Op == "test" && strings.Contains(ev.Args[0], "reservedIdentifiers[") && ev.Out == "false":
+				if i := strings.Index(ev.Args[0], "reservedIdentifiers["); i >= 0 {
+					x := strings.TrimSuffix(strings.TrimSuffix(ev.Args[0][i+len("reservedIdentifiers["):], "]"), ".Lexeme")
+					if !has(x) {
+						return st + "|" + x
+					}
+				}
+			case ev.Op == "field" && (ev.Args[0] == "VarStmt" || ev.Args[0] == "FunctionStmt") && ev.Args[1] == "Name":
+				stored++
+				if !has(ev.Args[2]) {
+					return "!" + ev.Args[0] + ".Name is set from " + ev.Args[2] + ", a name token that was not looked up in the reserved table (and found absent) on this path: a built-in name can be declared"
 				}
 			}
-		})
-		if ok || instrs {
-			l.Discharge(rule, "parser."+f+"#reserved-lookup", "", "the declared name's lexeme is looked up in the reserved table", true)
-		} else {
-			l.Violate(rule, "parser."+f+"#reserved-lookup", "", "the reserved-name test of "+f+" does not look up the declared name")
+			return st
+		}}
+		ws := m.G.Run(mon)
+		for _, w := range ws {
+			l.Violate(rule, "parser."+f+"#reserved-lookup", posOf(w), w.Msg, witnessDetail(w))
+		}
+		if len(ws) == 0 && stored > 0 {
+			l.Discharge(rule, "parser."+f+"#reserved-lookup", "", "every declared name's lexeme is looked up in the reserved table before it is stored in the node", true)
+		} else if stored == 0 {
+			l.Violate(rule, "parser."+f+"#reserved-lookup", "", "no store of a declared name found in "+f)
 		}
 	}
 }
